@@ -50,6 +50,19 @@ CHECKS = {
                 "profile dispatch of genotype.py is covered by C19/C16 ties.",
         "technique": "Lean 4 proof over the constraint builder and the fold + captured-model structural correspondence + exhaustive spec oracle",
     },
+    "C18": {
+        "text": "Machine-checked theorems about the Lean model of Profile.update for every state, name and value: true/false in any letter case "
+                "and 1/0 and native booleans take the documented value, any other boolean spelling is rejected, decimal integers (signed) parse to "
+                "exactly that integer (via Nat.digits round trip), native numbers keep their value, unknown names and None are ignored, malformed "
+                "values end in an error naming the parameter, a well-formed value is stored under the parameter's type, typed values survive the "
+                "options-section round trip, --param items split at the first '='. Ties: parameter table regenerated from Profile.__init__; "
+                "Profile.update vs the model on every parameter x spelling class and random multi-updates; `aldy profile --param` -> YAML -> "
+                "Profile.load round trip through the real CLI code. A genuine defect (booleans) was repaired by a fix: commit.",
+        "design_ref": "DESIGN.md section 4 (C18), 5",
+        "note": "Python's float() is modelled on finite decimal literals only (tie-checked, no theorem); inf/nan excluded; int() of a native "
+                "non-integral float truncates (documented, not judged).",
+        "technique": "Lean 4 proof over the typed-update model + differential correspondence with Profile.update and the real CLI route",
+    },
 }
 
 NOT_YET = "check not built yet (work in progress; see DESIGN.md section 9 build order)"
